@@ -143,16 +143,44 @@ def Sep (s : St) : Prop := ∀ y, total s.heap s.names y ≤ 1
 def RootOK (h : Heap) (a : Addr) : Prop :=
   ∃ t v, unfoldA D h a = some t ∧ decode t = some v ∧ flagsOK t.isMut t
 
+/-- the shared default objects (`()` and the default argument `CTxWitness()`) are where the
+    constructors expect them -/
+def DefaultsOK (h : Heap) : Prop :=
+  ∃ o0 o1 : Obj, h[emptyTuple]? = some o0 ∧ o0.isMut = false ∧ o0.sc = .seq .stacks ∧ o0.refs = [] ∧
+    h[defaultWit]? = some o1 ∧ o1.isMut = false ∧ o1.sc = .wit ∧ o1.refs = [emptyTuple]
+
+theorem defaults_ext {h : Heap} (e : Heap) (hd : DefaultsOK h) : DefaultsOK (h ++ e) := by
+  obtain ⟨o0, o1, h0, a1, a2, a3, h1, b1, b2, b3⟩ := hd
+  exact ⟨o0, o1, getElem?_append_of_some e h0, a1, a2, a3, getElem?_append_of_some e h1, b1, b2, b3⟩
+
+/-- a write keeps the defaults if it keeps flag, class and references of immutable objects -/
+theorem defaults_set {h : Heap} {x : Addr} {o' : Obj} (hd : DefaultsOK h)
+    (hk : ∀ o : Obj, h[x]? = some o → o.isMut = false → o'.isMut = false ∧ o'.sc = o.sc ∧ o'.refs = o.refs) :
+    DefaultsOK (h.set x o') := by
+  obtain ⟨o0, o1, h0, a1, a2, a3, h1, b1, b2, b3⟩ := hd
+  have key : ∀ (c : Addr) (oc : Obj), h[c]? = some oc → oc.isMut = false →
+      ∃ oc' : Obj, (h.set x o')[c]? = some oc' ∧ oc'.isMut = false ∧ oc'.sc = oc.sc ∧ oc'.refs = oc.refs := by
+    intro c oc hoc hm
+    by_cases hcx : c = x
+    · subst hcx
+      obtain ⟨k1, k2, k3⟩ := hk oc hoc hm
+      exact ⟨o', by simp [List.getElem?_set_self (List.getElem?_eq_some_iff.mp hoc).1], k1, k2, k3⟩
+    · exact ⟨oc, by rw [List.getElem?_set_ne (fun e => hcx e.symm)]; exact hoc, hm, rfl, rfl⟩
+  obtain ⟨p0, q0, q1, q2, q3⟩ := key _ o0 h0 a1
+  obtain ⟨p1, r0, r1, r2, r3⟩ := key _ o1 h1 b1
+  exact ⟨p0, p1, q0, q1, by rw [q2, a2], by rw [q3, a3], r0, r1, by rw [r2, b2], by rw [r3, b3]⟩
+
 structure Inv (s : St) : Prop where
   immClosed : ImmClosed s.heap
   kindOK : KindOK s.heap
   cacheOK : CacheOK s.heap
   sep : Sep s
   roots : ∀ r a, s.root r = some a → RootOK s.heap a
+  defaults : DefaultsOK s.heap
 
 theorem Inv.mk' {h : Heap} {names : List (Option Addr)} (h1 : ImmClosed h) (h2 : KindOK h) (h3 : CacheOK h)
-    (h4 : ∀ y, total h names y ≤ 1) (h5 : ∀ (r : Nat) (a : Addr), (names[r]?).join = some a → RootOK h a) :
-    Inv ⟨h, names⟩ := ⟨h1, h2, h3, h4, h5⟩
+    (h4 : ∀ y, total h names y ≤ 1) (h5 : ∀ (r : Nat) (a : Addr), (names[r]?).join = some a → RootOK h a)
+    (h6 : DefaultsOK h) : Inv ⟨h, names⟩ := ⟨h1, h2, h3, h4, h5, h6⟩
 
 theorem join_append_one {names : List (Option Addr)} {n : Option Addr} {r : Nat} {a : Addr}
     (h : ((names ++ [n])[r]?).join = some a) :
@@ -240,6 +268,7 @@ theorem inv_skip {s : St} (hinv : Inv s) : Inv s.skip := by
     rcases join_append_one hr with h1 | ⟨_, h1⟩
     · exact hinv.roots r a h1
     · cases h1
+  · exact hinv.defaults
 
 /-- **heap extension**: new objects are appended (empty caches, classes respected, immutability
     closed) and possibly a name is bound to a root whose mutable part is fresh -/
@@ -298,6 +327,7 @@ theorem inv_ext {s : St} (hinv : Inv s) {h' e : Heap} (he : h' = s.heap ++ e)
     · exact rootOK_ext e (hinv.roots r a h1)
     · obtain ⟨t, v, hu, hd, hf, _⟩ := hn a h1
       exact ⟨t, v, hu, hd, hf⟩
+  · exact defaults_ext e hinv.defaults
 
 theorem immClosed_set_same {h : Heap} {x : Addr} {o o' : Obj} (hic : ImmClosed h) (hox : h[x]? = some o)
     (h1 : o'.isMut = o.isMut) (h3 : o'.refs = o.refs) : ImmClosed (h.set x o') := by
@@ -380,5 +410,9 @@ theorem inv_set_same {s : St} (hinv : Inv s) {x : Addr} {o o' : Obj} (hox : s.he
     · obtain ⟨t, v, hu, hd, hf⟩ := hinv.roots r a h1'
       exact ⟨t, v, unfoldA_set_same hox h1 h2 h3 hu, hd, hf⟩
     · cases h1'
+  · apply defaults_set hinv.defaults
+    intro o2 ho2 hm2
+    rw [hox] at ho2; cases ho2
+    exact ⟨by rw [h1]; exact hm2, h2, h3⟩
 
 end BtcVerif.Model.Heap
